@@ -2144,7 +2144,28 @@ impl EGraph {
                     desugared.extend(resolved.resolved);
                     desugared_before_proofs.extend(resolved.resolved_before_proofs);
                 } else {
-                    let resolved = self.resolve_command(command)?;
+                    // Type checking records sorts, function signatures and globals as it goes. A
+                    // command that is rejected (by the type checker itself or by a later check
+                    // such as shadowing) must leave no trace, so restore the type information.
+                    let type_info_before = self.type_info.clone();
+                    let original_type_info_before = self
+                        .proof_state
+                        .original_typechecking
+                        .as_ref()
+                        .map(|egraph| egraph.type_info.clone());
+                    let resolved = match self.resolve_command(command) {
+                        Ok(resolved) => resolved,
+                        Err(err) => {
+                            self.type_info = type_info_before;
+                            if let (Some(original), Some(type_info)) = (
+                                self.proof_state.original_typechecking.as_mut(),
+                                original_type_info_before,
+                            ) {
+                                original.type_info = type_info;
+                            }
+                            return Err(err);
+                        }
+                    };
                     if run_commands && self.are_proofs_enabled() {
                         self.proof_check_program
                             .extend(resolved.desugared_before_proofs.clone());
